@@ -118,7 +118,7 @@ theorem two_parts_at (M : Mode) (nS nM : Nat) (ta tb : List Node) (ha : linL ta 
 /-- **shape (J) at an offset**: the interpreter, entered at the first byte of the stream with the
 loop-back not yet followed, plays `ta`, then `tb` `mj + 1` times with a loop mark after each of
 the first `mj`, and stops at the jump.  The loop section must end in the drum-mode state it
-starts in (`hloop`; otherwise the replay is played in the other state: D25). -/
+starts in (`hloop`; otherwise the replay is played in the other state: D27). -/
 theorem track_j_at (M : Mode) (nS nM : Nat) (ta tb : List Node) (ha : linL ta = true) (hb : linL tb = true)
     (ma : mokL M true ta = true) (mb : mokL (afterL M ta) true tb = true)
     (hloop : (afterL (afterL M ta) tb).dm = (afterL M ta).dm) :
